@@ -4,6 +4,7 @@ import (
 	"encoding/json"
 	"fmt"
 	"os"
+	"strings"
 	"testing"
 
 	"verif/drv/pbt"
@@ -61,6 +62,23 @@ func TestMinimize(t *testing.T) {
 					d.Subs[j].JoinAt--
 				}
 			}
+			var pr []int
+			for _, k := range d.Probes {
+				switch {
+				case k < i:
+					pr = append(pr, k)
+				case k > i:
+					pr = append(pr, k-1)
+				}
+			}
+			d.Probes = pr
+			if fails(d) {
+				c, changed = d, true
+			}
+		}
+		for i := len(c.Probes) - 1; i >= 0; i-- {
+			d := clone(c)
+			d.Probes = append(d.Probes[:i], d.Probes[i+1:]...)
 			if fails(d) {
 				c, changed = d, true
 			}
@@ -87,7 +105,7 @@ func TestMinimize(t *testing.T) {
 			}
 			ok := true
 			for _, sb := range d.Subs {
-				if sb.Kind == "rtmp" && !d.Out.Rtmp || sb.Kind == "flv" && !d.Out.Flv || sb.Kind == "ts" && !d.Out.Ts || sb.Kind == "rtsp" && !d.Out.Rtsp {
+				if sb.Kind == "rtmp" && !d.Out.Rtmp || strings.HasSuffix(sb.Kind, "flv") && !d.Out.Flv || strings.HasSuffix(sb.Kind, "ts") && !d.Out.Ts || sb.Kind == "rtsp" && !d.Out.Rtsp || sb.Kind == "hls" && !d.Out.Hls {
 					ok = false
 				}
 			}
@@ -126,7 +144,7 @@ func TestMinimize(t *testing.T) {
 			if len(pl) > 4096 {
 				continue
 			}
-			if m.Item != nil || m.Trunc != 0 || len(m.Patch) != 0 || m.TailLen != 0 {
+			if m.Item != nil || m.Trunc != 0 || len(m.Patch) != 0 || m.TailLen != 0 || m.Rep != 0 {
 				d := clone(c)
 				d.Msgs[i] = Msg{Type: m.Type, Ts: m.Ts, Class: m.Class, Incons: m.Incons, Raw: pl}
 				if fails(d) {
@@ -134,7 +152,7 @@ func TestMinimize(t *testing.T) {
 				}
 			}
 			m = c.Msgs[i]
-			if m.Item == nil && m.Trunc == 0 && len(m.Patch) == 0 && m.TailLen == 0 {
+			if m.Item == nil && m.Trunc == 0 && len(m.Patch) == 0 && m.TailLen == 0 && m.Rep == 0 {
 				for len(c.Msgs[i].Raw) > 1 {
 					d := clone(c)
 					d.Msgs[i].Raw = d.Msgs[i].Raw[:len(d.Msgs[i].Raw)-1]
